@@ -443,6 +443,10 @@ def r3_style_dispatch(ctx):
                'the freeform attempt is not inside a try of the auto dispatcher: its parse error reaches the containment handler' if not in_try else
                'the freeform attempt runs inside a try of the dispatcher: its DoctestParseError may be swallowed silently', anchor=q)
     # the google handler re-raises only when examples were found
+    raises = [n for n in g.nodes if n.kind == 'stmt' and isinstance(n.ast, ast.Raise) and not n.dup and any(fr.kind == 'try' and getattr(fr, 'handler', None) is not None for fr in n.frames)]
+    rep.ob('C14.R3', ctx.loc(f, f.node), 'the google attempt can re-raise', bool(raises),
+           'a raise is present in the handler of the google attempt' if raises else
+           'the handler of the google attempt never re-raises: an error after examples were already produced is swallowed -- no warning, no fallback, a truncated list of examples', anchor=q)
     for n in g.nodes:
         if n.kind == 'stmt' and isinstance(n.ast, ast.Raise) and n.ast.exc is None and not n.dup:
             facts = graph.guard_facts(dom, n)
@@ -919,6 +923,7 @@ from ..selftest import fire, silent      # noqa: E402
 PA = 'xdoctest/parser.py'
 CO = 'xdoctest/core.py'
 VARIANTS = [
+    fire('auto-style-never-reraises', 'C14.R3', ('xdoctest/core.py', "        if n_found > 0:\n            raise\n", "        if n_found > 0:\n            pass\n")),
     fire('labeller-swallows-incomplete-statement', 'C14.R12', ('xdoctest/parser.py', "                except exceptions.IncompleteParseError:\n                    raise\n", "                except exceptions.IncompleteParseError:\n                    pass\n")),
     fire('revert-fix-F14-locator-candidate-unchecked', 'C14.R10', ('xdoctest/static_analysis.py', "                if cand_start_ < 0:\n", "                if False:\n")),
     fire('locator-candidate-checked-against-the-wrong-end', 'C14.R10', ('xdoctest/static_analysis.py', "                if cand_start_ < 0:\n", "                if cand_start_ >= len(sourcelines):\n")),
